@@ -45,10 +45,15 @@ void VS_SHB_RETIRE(shb *self) { hl(H_RETIRE); }
   /* (2) not permitted by its sequences: validate(fatal, name, loc) is the only handler call after the query; count, lists and sequences untouched; no OK report; lock released */ \
   __CPROVER_ensures(g_max == 0 || g_can || (s->vp_returned && vp_exc == VP_EXC_VIOLATION && hlog_n == 2 && hlog[0] == H_CAN && hlog[1] == H_VALIDATE && h_validate_sev == 0 && \
                                    h_validate_name == s->self->_b0.name && h_validate_line == s->self->_b0.loc.line && s->self->sequences->call_count == g_cnt && vp_ok_n == 0 && vp_lock_depth == 0 && SELF_LE(s)->next != SELF_LE(s))) \
-  /* (3) accepted: counted once; predecessors retired on EVERY accepted call, after counting; exactly one OK report naming the expectation; the lock is held for the side effects */ \
-  __CPROVER_ensures(g_max == 0 || !g_can || (!s->vp_returned && vp_exc == 0 && vp_rep_n == 0 && s->self->sequences->call_count == g_cnt + 1 && hlog_n >= 2 && hlog[0] == H_CAN && hlog[1] == H_RETIRE_PRED && h_cnt_at_retire_pred == g_cnt + 1 && \
-                                   vp_ok_n == 1 && vp_ok[0].msg == s->self->_b0.name && vp_lock_depth == 1 && s->lock.held)) \
-  /* (3a) saturation <=> count+1 == max: its sequence handles are retired, it leaves the active list and is appended to the saturated list */ \
+  /* (3) accepted: no report, counted exactly once */ \
+  __CPROVER_ensures(g_max == 0 || !g_can || (!s->vp_returned && vp_exc == 0 && vp_rep_n == 0 && s->self->sequences->call_count == g_cnt + 1)) \
+  /* (4) accepted: predecessors are retired on EVERY accepted call, after counting */ \
+  __CPROVER_ensures(g_max == 0 || !g_can || (hlog_n >= 2 && hlog[0] == H_CAN && hlog[1] == H_RETIRE_PRED && h_cnt_at_retire_pred == g_cnt + 1)) \
+  /* (5) accepted: exactly one OK report naming the expectation, before any side effect runs */ \
+  __CPROVER_ensures(g_max == 0 || !g_can || (vp_ok_n == 1 && vp_ok[0].msg == s->self->_b0.name)) \
+  /* (6) accepted: the lock is held for the side effects */ \
+  __CPROVER_ensures(g_max == 0 || !g_can || (vp_lock_depth == 1 && s->lock.held)) \
+  /* (7) saturation <=> count+1 == max: its sequence handles are retired, it leaves the active list and is appended to the saturated list */ \
   __CPROVER_ensures(g_max == 0 || !g_can || g_cnt + 1 != g_max || (hlog_n == 3 && hlog[2] == H_RETIRE && SAT_SENT(s)->prev == SELF_LE(s) && SELF_LE(s)->next == SAT_SENT(s) && SELF_LE(s)->prev->next == SELF_LE(s) && \
                                    __CPROVER_old(SELF_LE(s)->next)->prev == __CPROVER_old(SELF_LE(s)->prev) && __CPROVER_old(SELF_LE(s)->prev)->next == __CPROVER_old(SELF_LE(s)->next))) \
   __CPROVER_ensures(g_max == 0 || !g_can || g_cnt + 1 == g_max || (hlog_n == 2 && SELF_LE(s)->next == __CPROVER_old(SELF_LE(s)->next) && SELF_LE(s)->prev == __CPROVER_old(SELF_LE(s)->prev) && SAT_SENT(s)->prev == __CPROVER_old(SAT_SENT(s)->prev))) \
